@@ -165,7 +165,9 @@ class DateTimestampProvider(MorphingProvider):
                 if data is None:
                     raise TypeLoadError(Union[int, float], data)
 
-                return date.fromtimestamp(data)  # noqa: DTZ012
+                # the dumper produces the timestamp of the midnight in UTC,
+                # ``date.fromtimestamp`` uses the local time zone and returns the previous day to the west of Greenwich
+                return datetime.fromtimestamp(data, tz=timezone.utc).date()
             except TypeError:
                 raise TypeLoadError(Union[int, float], data)
             except ValueError:
@@ -178,7 +180,7 @@ class DateTimestampProvider(MorphingProvider):
 
         def pydate_timestamp_loader(data):
             try:
-                return date.fromtimestamp(data)  # noqa: DTZ012
+                return datetime.fromtimestamp(data, tz=timezone.utc).date()
             except TypeError:
                 raise TypeLoadError(Union[int, float], data)
             except ValueError:
